@@ -1101,7 +1101,7 @@ class FileStorage(
 
     def _txn_find(self, tid, stop_at_pack):
         pos = self._pos
-        while pos > 39:
+        while pos >= 4 + TRANS_HDR_LEN + 8:
             self._file.seek(pos - 8)
             pos = pos - u64(self._file.read(8)) - 8
             self._file.seek(pos)
@@ -2187,8 +2187,11 @@ class UndoSearch:
 
     def finished(self):
         """Return True if UndoSearch has found enough records."""
-        # BAW: Why 39 please?  This makes no sense (see also below).
-        return self.i >= self.last or self.pos < 39 or self.stop
+        # No transaction can end before the magic number plus the
+        # smallest transaction (header and redundant length, no
+        # records, no metadata).
+        return (self.i >= self.last or
+                self.pos < 4 + TRANS_HDR_LEN + 8 or self.stop)
 
     def search(self):
         """Search for another record."""
